@@ -579,11 +579,16 @@ class ClassModificationArgument(Node):
         )
 
     def __deepcopy__(self, memo):
-        _scope, _deepcp = self.scope, self.__deepcopy__
+        # The scope is shared, not copied
+        _scope = self.scope
         self.scope, self.__deepcopy__ = None, None
-        new = copy.deepcopy(self, memo)
-        self.scope, self.__deepcopy__ = _scope, _deepcp
-        new.scope, new.__deepcopy__ = _scope, _deepcp
+        try:
+            new = copy.deepcopy(self, memo)
+        finally:
+            self.scope = _scope
+            del self.__deepcopy__
+        new.scope = _scope
+        del new.__deepcopy__
         return new
 
 
@@ -854,15 +859,19 @@ class Class(Node):
         self.initial_equations.remove(e)
 
     def __deepcopy__(self, memo):
-        # Avoid copying the entire tree
-        if self.parent is not None and self.parent not in memo:
+        # Avoid copying the entire tree: a parent that is not itself being
+        # copied is shared (note that memo is keyed by id)
+        if self.parent is not None and id(self.parent) not in memo:
             memo[id(self.parent)] = self.parent
 
-        _deepcp = self.__deepcopy__
+        # Hide this method from copy.deepcopy() for the duration of the inner
+        # copy, then make both objects use the class-level method again
         self.__deepcopy__ = None
-        new = copy.deepcopy(self, memo)
-        self.__deepcopy__ = _deepcp
-        new.__deepcopy__ = _deepcp
+        try:
+            new = copy.deepcopy(self, memo)
+        finally:
+            del self.__deepcopy__
+        del new.__deepcopy__
         return new
 
     def __repr__(self):
